@@ -36,6 +36,18 @@ def run(ctx):
         "YAML export files are produced and consumed by the same code version",
     ]
     with core.Lock():
+        # T-tie: RepoExportContext._computeSortedCollections (the order in which collections are written / registered) is recognised
+        # statement by statement in the working tree and generated into Gen/ExportOrderPy.lean; C19.Translated.export_order
+        # (chains follow their children and all non-chains), fuel_suffices and loop_emits are proved about the generated definitions
+        import sys as _sys
+
+        _sys.path.insert(0, os.path.join(core.VERIF, "translate"))
+        try:
+            import gen_export
+
+            gen_export.generate(core.GEN_DIR)
+        except Exception as e:
+            ctx.broken.append(f"translation: RepoExportContext._computeSortedCollections: {type(e).__name__}: {e}")
         built = core.lean_build(ctx, LEAN_TARGETS)
         if built:
             core.lean_audit(ctx, ["ButlerModel.Props.C19"])
@@ -43,6 +55,72 @@ def run(ctx):
                 core.leanchecker(ctx, ["ButlerModel.Props.C19"])
     with repo.Scratch("verif-c19-") as tmp:
         cases(ctx, built, tmp)
+    export_order_probe(ctx)
+
+
+def export_order_probe(ctx):
+    """`RepoExportContext._computeSortedCollections` itself on generated sets of collections (random chain DAGs of several levels,
+    shared children, children that are not exported, and now and then a cycle): every chain after all of its exported children and
+    after every non-chain, every collection exactly once; a cycle is an error (what `C19.Translated.export_order` states of the
+    generated definitions)."""
+    from types import SimpleNamespace
+
+    from lsst.daf.butler import CollectionType
+    from lsst.daf.butler.registry.interfaces import ChainedCollectionRecord, RunRecord
+    from lsst.daf.butler.transfers._context import RepoExportContext
+
+    rng = ctx.rng
+    for n in range(300 if ctx.quick() else 5000):
+        n_plain, n_chain = rng.randint(0, 4), rng.randint(0, 6)
+        plain = [f"{rng.choice('rtz')}{i}" for i in range(n_plain)]
+        chains = [f"{rng.choice('acy')}c{i}" for i in range(n_chain)]
+        cyclic = rng.random() < 0.12 and n_chain >= 2
+        kids = {}
+        for i, c in enumerate(chains):
+            pool = plain + chains[:i] + ["not_exported"]  # children among the earlier chains only: a DAG
+            kids[c] = rng.sample(pool, rng.randint(0, min(3, len(pool))))
+        if cyclic:
+            a_, b_ = rng.sample(chains, 2)
+            kids[a_] = kids[a_] + [b_]
+            kids[b_] = kids[b_] + [a_]
+        names = plain + chains
+        rng.shuffle(names)
+        recs = {}
+        for k, name in enumerate(names):
+            recs[name] = ChainedCollectionRecord(k, name, children=kids[name]) if name in kids else RunRecord(k, name)
+        fake = SimpleNamespace(_collections=recs)
+        ctx.evaluations += 1
+        ctx.count("export-order:" + ("cycle" if cyclic else "dag"))
+        try:
+            out = RepoExportContext._computeSortedCollections(fake)
+        except RuntimeError:
+            out = "RuntimeError"
+        except Exception as e:
+            out = f"{type(e).__name__}"
+        problems = []
+        if cyclic:
+            if out != "RuntimeError":
+                problems.append(f"a cycle among the chains gives {out}")
+        elif not isinstance(out, list):
+            problems.append(f"raises {out}")
+        else:
+            if sorted(out) != sorted(names):
+                problems.append(f"returns {out} for the collections {sorted(names)}")
+            pos = {x: i for i, x in enumerate(out)}
+            for c, ks in kids.items():
+                for k_ in ks:
+                    if k_ in kids and c in pos and k_ in pos and pos[k_] > pos[c]:
+                        problems.append(f"chain {c} comes before its child chain {k_}")
+                for p_ in plain:
+                    if c in pos and p_ in pos and pos[p_] > pos[c]:
+                        problems.append(f"chain {c} comes before the non-chain {p_}")
+            if n_chain >= 2:
+                ctx.nontrivial.add(("export-order", n))
+        if problems:
+            ctx.violations.append(core.Violation(
+                what=f"_computeSortedCollections over chains {kids} and others {plain}: " + "; ".join(problems[:2]),
+                key=f"export-order:{sorted(kids.items())}:{plain}", replay={"kind": "export-order", "chains": kids, "others": plain}))
+            break
 
 
 class Num:
